@@ -1,3 +1,107 @@
-(* Props/C13.v -- placeholder while the correspondence is brought up *)
+(* Props/C13.v -- ClientHello parsing is total and independent of segmentation.
+   Statements only; each is closed by [exact] of a lemma proved in Proofs/ClientHello*.v.
+   Model: Model/ClientHello.v (mitmproxy, with fixes/C13-dtls-record-version.diff applied).
+   Reference: Model/TlsRef.v (RFC 8446 4.1.2, RFC 6347, RFC 6066, RFC 7301; does not import the model).
+   [ace_ok] is the library function encodings.idna.ToUnicode on ACE-prefixed labels; every theorem
+   quantifies over it. *)
 From Coq Require Import List Bool NArith.
-From MV Require Import Base.Bytes Model.ClientHello.
+From MV Require Import Base.Bytes Model.ClientHello Model.TlsRef Proofs.ClientHelloMain.
+Import ListNotations.
+Local Open Scope N_scope.
+
+(* (3) Totality on arbitrary bytes, TLS and DTLS: the outcome is Incomplete (returns None), a ClientHello, or
+   Invalid (ValueError); the model's out-of-fuel value is unreachable.  That Python raises nothing else is
+   the OOther observable of the correspondence check. *)
+Theorem C13_no_other_outcome : forall (dtls : bool) (data : bytes),
+  parse_client_hello_gen dtls data = Incomplete
+  \/ (exists h, parse_client_hello_gen dtls data = Hello h)
+  \/ parse_client_hello_gen dtls data = Invalid.
+Proof. exact outcome_exhaustive. Qed.
+Print Assumptions C13_no_other_outcome.
+
+(* Segmentation independence for ALL inputs (well-formed or not): ClientTLSLayer, fed any list of
+   segments / datagrams and re-parsing its recv_buffer after each, decides exactly what
+   parse_client_hello says on the concatenation. *)
+Theorem C13_layer_equals_whole : forall (dtls : bool) (segs : list bytes),
+  snd (receive_handshake_data dtls [] segs 0) = parse_client_hello_gen dtls (concat segs).
+Proof. exact layer_equals_whole. Qed.
+Print Assumptions C13_layer_equals_whole.
+
+(* (1) Every well-formed ClientHello (reference grammar), carried in ANY list of well-formed handshake
+   records whose fragments concatenate to the handshake message, cut into ANY list of segments, is reported
+   as a ClientHello whose SNI, ALPN offers, cipher suites and raw extensions are those of the reference.
+   Hypothesis on the library: the IDNA codec accepts the ACE-prefixed labels of the offered server names
+   (without it: known finding sni-ace-label-rejected).
+   For dtls = true this is the PARTIAL form of the property: the records must carry the bytes of ONE
+   unfragmented DTLS handshake message (fragment_offset 0, fragment_length = length); see
+   C13_dtls_fragmented_refuted for the complement. *)
+Theorem C13_hello_any_split :
+  forall (ace_ok : bytes -> bool) (dtls : bool) (r : rhello) (mseq : byte * byte)
+         (recs : list (bytes * bytes)) (segs : list bytes),
+  wf_hello r ->
+  (forall l, In l (sni_labels (exts_list r)) -> starts_with ACE l = true -> ace_ok l = true) ->
+  Forall (wf_record dtls) recs -> payloads recs = enc_handshake dtls mseq r ->
+  concat segs = stream recs ->
+  exists h, snd (receive_handshake_data dtls [] segs 0) = Hello h
+            /\ sni ace_ok h = ref_sni r /\ alpn_protocols h = ref_alpn r
+            /\ cipher_suites h = ref_ciphers r /\ extensions h = ref_exts r.
+Proof. exact hello_any_split. Qed.
+Print Assumptions C13_hello_any_split.
+
+(* the same for the parser called directly on the whole stream *)
+Theorem C13_hello_any_records :
+  forall (ace_ok : bytes -> bool) (dtls : bool) (r : rhello) (mseq : byte * byte) (recs : list (bytes * bytes)),
+  wf_hello r ->
+  (forall l, In l (sni_labels (exts_list r)) -> starts_with ACE l = true -> ace_ok l = true) ->
+  Forall (wf_record dtls) recs -> payloads recs = enc_handshake dtls mseq r ->
+  exists h, parse_client_hello_gen dtls (stream recs) = Hello h
+            /\ sni ace_ok h = ref_sni r /\ alpn_protocols h = ref_alpn r
+            /\ cipher_suites h = ref_ciphers r /\ extensions h = ref_exts r.
+Proof. exact hello_any_records. Qed.
+Print Assumptions C13_hello_any_records.
+
+(* (2) Every strict prefix of such a record stream is Incomplete (never Invalid, never a hello). *)
+Theorem C13_prefix_incomplete :
+  forall (dtls : bool) (r : rhello) (mseq : byte * byte) (recs : list (bytes * bytes)) (q t : bytes),
+  wf_hello r -> Forall (wf_record dtls) recs -> payloads recs = enc_handshake dtls mseq r ->
+  t <> [] -> q ++ t = stream recs ->
+  parse_client_hello_gen dtls q = Incomplete.
+Proof. exact prefix_incomplete. Qed.
+Print Assumptions C13_prefix_incomplete.
+
+(* The full property is FALSE for DTLS: a well-formed hello sent as two RFC 6347 4.2.3 handshake fragments
+   (each record with its own fragment header) is rejected as Invalid (known finding dtls-fragmented-hello) ... *)
+Theorem C13_dtls_fragmented_refuted :
+  exists r mseq k,
+    wf_hello r /\ (0 < k < length (enc_hello true r))%nat
+    /\ let body := enc_hello true r in
+       let recs := [dtls_rec (enc_fragment mseq body 0 k); dtls_rec (enc_fragment mseq body k (length body - k))] in
+       Forall (wf_record true) recs
+       /\ parse_client_hello_gen true (stream recs) = Invalid.
+Proof. exact dtls_fragmented_refuted. Qed.
+Print Assumptions C13_dtls_fragmented_refuted.
+
+(* ... or, cut right after the compression methods, accepted as a hello WITHOUT extensions: the SNI is lost. *)
+Theorem C13_dtls_fragmented_loses_sni_refuted :
+  exists r mseq k,
+    wf_hello r /\ (0 < k < length (enc_hello true r))%nat
+    /\ let body := enc_hello true r in
+       let recs := [dtls_rec (enc_fragment mseq body 0 k); dtls_rec (enc_fragment mseq body k (length body - k))] in
+       Forall (wf_record true) recs
+       /\ exists h, parse_client_hello_gen true (stream recs) = Hello h
+                    /\ sni (fun _ => true) h = None /\ ref_sni r <> None.
+Proof. exact dtls_fragmented_loses_sni. Qed.
+Print Assumptions C13_dtls_fragmented_loses_sni_refuted.
+
+(* The hypotheses of C13_hello_any_split are satisfiable on a non-trivial value: a hello with a GREASE
+   extension, SNI www.example.com, two ALPN protocols and supported_versions, in three records cut into
+   three segments that do not align with the records; the layer decides at the third segment. *)
+Theorem C13_nonvacuous :
+  wf_hello ex_hello
+  /\ Forall (wf_record false) ex_recs /\ payloads ex_recs = enc_handshake false (x00, x00) ex_hello
+  /\ concat ex_segs = stream ex_recs
+  /\ (forall l, In l (sni_labels (exts_list ex_hello)) -> starts_with ACE l = true -> (fun _ => false) l = true)
+  /\ ref_sni ex_hello = Some (join_dot ex_host_labels) /\ length (ref_exts ex_hello) = 4%nat
+  /\ fst (receive_handshake_data false [] ex_segs 0) = 2.
+Proof. exact nonvacuous. Qed.
+Print Assumptions C13_nonvacuous.
